@@ -77,6 +77,9 @@ def run_case(case):
             hyps.append('%s = %s' % (t, 'true' if b else 'false'))
         out['pcs'] = [(pc[0], pc[3], pc[4]) for pc in pcs]
         out['rhs'], out['hyps'] = rhs, hyps
+        # the model call may depend on what the run observed (e.g. the number of loop iterations)
+        out['call'] = case.call() if callable(case.call) else case.call
+        out['alt_call'] = case.alt_call() if callable(case.alt_call) else case.alt_call
     except TraceEscape as e:
         out['status'] = 'escape'
         out['error'] = '%s' % e
@@ -110,7 +113,7 @@ def lemma_text(case, out, leaves, diagnostic=False):
     else:
         comment = ''
         hyps = case.hyps + out['hyps']
-        stmt = ''.join('%s ->\n  ' % h for h in hyps) + '%s =\n    %s' % (case.call, out['rhs'])
+        stmt = ''.join('%s ->\n  ' % h for h in hyps) + '%s =\n    %s' % (out.get('use_call') or out['call'], out['rhs'])
     binder = '(%s : num N)' % ' '.join(leaves) if leaves else ''
     head = 'forall %s %s,\n  ' % (binder, case.binders) if (binder or case.binders) else ''
     tac = case.tactic or 'bridge'
@@ -138,7 +141,7 @@ def emit_family(fam, imports, cases, leaves_fn, extra_header=''):
             stale = [] if o2['status'] != 'ok' else [
                 t for t in re.findall(r'\b\w+\b', o2['rhs'] + ' '.join(o2['hyps']))
                 if t in names and not t.endswith('_b')]
-            if stale or o2['status'] != 'ok' or strip(o2['rhs']) != o['rhs'] or [strip(h) for h in o2['hyps']] != o['hyps']:
+            if stale or o2['status'] != 'ok' or strip(o2['rhs']) != o['rhs'] or [strip(h) for h in o2['hyps']] != o['hyps'] or strip(o2['call']) != o['call']:
                 o['status'] = 'history'
                 o['error'] = ('the trace of this case changed when it was repeated later in the same process with '
                               'different symbolic leaves (hidden state / cache): ' + (o2.get('error') or strip(o2.get('rhs', ''))[:300]))
@@ -154,8 +157,11 @@ def emit_family(fam, imports, cases, leaves_fn, extra_header=''):
             if diagnostic and c.alt_call:
                 import copy as _copy
                 c2 = _copy.copy(c)
-                c2.name, c2.call = c.name + '__alt', c.alt_call
-                lines.append(lemma_text(c2, o, leaves, True))
+                c2.name = c.name + '__alt'
+                o2 = dict(o)
+                o2['use_call'] = o.get('alt_call')
+                if o2['use_call']:
+                    lines.append(lemma_text(c2, o2, leaves, True))
         lines.append('End Bridges.\n')
         text = ''.join(lines)
         path = os.path.join(COQ_GEN, ('Diag_%s.v' if diagnostic else 'Trace_%s.v') % fam)
